@@ -46,7 +46,7 @@ def get(I, fr, o, name):
 def build(I, st, fr, kind):
     """returns dict(h=functional object, value(x)=spec, grad(x)=spec, lip=spec bound or None, X)"""
     X = makers.tspace(I, st, 'X', 'real')
-    f = AbsFunc(I, st, 'f', X)
+    f = AbsFunc(I, st, 'f', X, linear=kind.endswith('_linbase'))
     g = AbsFunc(I, st, 'g', X)
     fv = lambda u: sem(I, fr, f.op, u)
     gv = lambda u: sem(I, fr, g.op, u)
@@ -109,10 +109,11 @@ def build(I, st, fr, kind):
             adj = oplib.adjoint_contract(I, fr, Dx)
             return sem(I, fr, adj, sem(I, fr, fY.gradient_op().op, Ax))
         return dict(h=h, X=X, value=lambda x: sem(I, fr, fY.op, sem(I, fr, A.op, x)), grad=grad, lip=None)
-    if kind in ('quadpert', 'quadpert_nolin'):
-        a = om.sym_scalar('a', 'real')
+    if kind in ('quadpert', 'quadpert_nolin', 'quadpert_linbase', 'quadpert_affine_linbase'):
+        # *_linbase: the perturbed functional is LINEAR; 'affine': no quadratic term, so f + <., u> + c is affine (not linear for c != 0) whatever flag the class reports
+        a = om.sym_scalar('a', 'real') if kind != 'quadpert_affine_linbase' else 0
         c = om.sym_scalar('c', 'real')
-        u = X.element('u') if kind == 'quadpert' else None
+        u = X.element('u') if kind != 'quadpert_nolin' else None
         h = I.call(cls('FunctionalQuadraticPerturb'), [f.op], {'quadratic_coeff': a, 'linear_term': u, 'constant': c}, fr)
         uc = content(u) if u is not None else VConst(0.0)
         return dict(h=h, X=X, value=lambda x: fv(x) + a * ip_(x, x) + ip_(x, uc) + c,
@@ -133,7 +134,7 @@ def build(I, st, fr, kind):
 
 
 KINDS = ['left_scalar', 'right_scalar', 'right_scalar_nested', 'left_scalar_nested', 'right_vector', 'sum', 'scalar_sum', 'translation', 'translation_nested', 'comp_lin',
-         'comp_nonlin', 'quadpert', 'quadpert_nolin', 'product', 'quotient', 'bregman']
+         'comp_nonlin', 'quadpert', 'quadpert_nolin', 'quadpert_linbase', 'quadpert_affine_linbase', 'product', 'quotient', 'bregman']
 
 
 def unit_derived(kind):
